@@ -9,6 +9,14 @@ import (
 // reference account store (what the admin API acknowledged); may reject or fail requests
 type vfStore struct {
 	accts map[string]Account
+	// hook runs at the named point of a store call (a concurrent request scheduled there); nil = none
+	hook func(point string)
+}
+
+func (s *vfStore) at(point string) {
+	if s.hook != nil {
+		s.hook(point)
+	}
 }
 
 func (s *vfStore) CreateAccount(a Account) error {
@@ -16,10 +24,13 @@ func (s *vfStore) CreateAccount(a Account) error {
 		return ErrUserExists
 	}
 	s.accts[a.Access] = a
+	s.at("after-mutation")
 	return nil
 }
 func (s *vfStore) GetUserAccount(access string) (Account, error) {
+	s.at("before-read")
 	a, ok := s.accts[access]
+	defer s.at("after-read")
 	if !ok {
 		return Account{}, ErrNoSuchUser
 	}
@@ -35,10 +46,12 @@ func (s *vfStore) UpdateUserAccount(access string, props MutableProps) error {
 	}
 	updateAcc(&a, props)
 	s.accts[access] = a
+	s.at("after-mutation")
 	return nil
 }
 func (s *vfStore) DeleteUserAccount(access string) error {
 	delete(s.accts, access)
+	s.at("after-mutation")
 	return nil
 }
 func (s *vfStore) ListUserAccounts() ([]Account, error) { return nil, nil }
@@ -91,5 +104,84 @@ func VfIAMCache() {
 			zzvf.Assert(zzvf.And(got.Access == want.Access, got.Secret == want.Secret, got.Role == want.Role), "lookup-returns-the-current-secret-and-role")
 			zzvf.Assert(zzvf.And(got.UserID == want.UserID, got.GroupID == want.GroupID), "lookup-returns-the-current-user-and-group-id")
 		}
+	}
+}
+
+// VfIAMRace: C17 – two concurrent requests on the same access key through one gateway, each a create, update, delete or
+// lookup. A lookup has the steps (cache get, store read, cache set), a mutation (store mutation, cache mutation).
+// Schedules: the second request runs entirely at a point inside the first one - before its store read, after its store
+// read, or after its store mutation - or the two run one after the other; the roles are symmetric, so both nesting
+// directions are covered. Store steps and cache steps touch disjoint state and each cache step is atomic under the cache's
+// own lock (each store step under the store's), so every linearisation of the steps is equivalent to one of these by
+// commuting independent neighbours.
+// After both have returned, a further lookup must be answered from the state the store holds (what was acknowledged).
+func VfIAMRace() {
+	zzvf.Bound("symbolic_clock", 1)
+	store := &vfStore{accts: map[string]Account{}}
+	c := &IAMCache{service: store, iamcache: &icache{items: map[string]item{}, expire: 60 * time.Second}}
+	key := "user1"
+	if zzvf.Choice("exists_initially", 2) == 1 {
+		store.accts[key] = Account{Access: key, Secret: "s0", Role: RoleUser, UserID: 7, GroupID: 8}
+		if zzvf.Choice("looked_up_before", 2) == 1 {
+			_, _ = c.GetUserAccount(key) // cached now; the symbolic clock decides whether the entry is still fresh later
+		}
+	}
+	request := func(who string, kind int) {
+		switch kind {
+		case 0:
+			_ = c.CreateAccount(Account{Access: key, Secret: zzvf.StringN(who+"_secret", 1), Role: RoleUserPlus, UserID: zzvf.Int(who + "_uid"), GroupID: 5})
+		case 1:
+			var props MutableProps
+			s := zzvf.StringN(who+"_new_secret", 1)
+			props.Secret = &s
+			if zzvf.Choice(who+"_set_uid", 2) == 1 {
+				u := zzvf.Int(who + "_new_uid")
+				props.UserID = &u
+			}
+			_ = c.UpdateUserAccount(key, props)
+		case 2:
+			_ = c.DeleteUserAccount(key)
+		case 3:
+			_, _ = c.GetUserAccount(key)
+		}
+	}
+	names := []string{"create", "update", "delete", "lookup"}
+	first := zzvf.Choice("first_request", 4)
+	second := zzvf.Choice("second_request", 4)
+	zzvf.Trace("first request: " + names[first] + ", second request: " + names[second])
+	points := []string{"", "before-read", "after-read", "after-mutation"}
+	point := points[zzvf.Choice("schedule", 4)]
+	ran := false
+	if point == "" {
+		request("first", first)
+		request("second", second)
+		ran = true
+	} else {
+		store.hook = func(p string) {
+			if p == point {
+				store.hook = nil
+				zzvf.Trace("second request runs inside the first one at its point " + point)
+				request("second", second)
+				ran = true
+			}
+		}
+		request("first", first)
+		store.hook = nil
+	}
+	if !ran {
+		return // the first request never reached that point: nothing interleaved
+	}
+	// both requests have returned; what does the next request see?
+	got, err := c.GetUserAccount(key)
+	want, ok := store.accts[key]
+	if !ok {
+		zzvf.Assert(err != nil, "deleted-account-is-rejected-after-the-acknowledgement")
+		return
+	}
+	zzvf.Reach("later-lookup-of-existing-account")
+	zzvf.Assert(err == nil, "existing-account-is-found")
+	if err == nil {
+		zzvf.Assert(zzvf.And(got.Access == want.Access, got.Secret == want.Secret, got.Role == want.Role), "later-lookup-returns-the-acknowledged-secret-and-role")
+		zzvf.Assert(zzvf.And(got.UserID == want.UserID, got.GroupID == want.GroupID), "later-lookup-returns-the-acknowledged-ids")
 	}
 }
